@@ -12,7 +12,8 @@ THEOREMS_T = ["c18_translated_attribute_parser", "c18_translated_second_msg_attr
               "c18_translated_variant_attr_on_struct_message_is_refused", "c18_translated_bare_payload_and_data",
               ]
 THEOREMS_S = ["c18_translated_missing_or_duplicated_handler", "c18_translated_constructor_check", "c18_translated_constructor_verdicts",
-              "c18_translated_reply_outcomes_exclude", "c18_translated_reply_outcome_names"]
+              "c18_translated_reply_outcomes_exclude", "c18_translated_reply_outcome_names",
+              "c18_regenerated_outcome_table_is_the_translated_function"]
 THEOREMS = ["c18_missing_constructor", "c18_parameterised_constructor", "c18_no_instantiate", "c18_several_instantiate",
             "c18_several_migrate", "c18_interface_generics", "c18_interface_without_error_type", "c18_instantiate_inside_interface",
             "c18_migrate_inside_interface", "c18_bad_attribute_argument_is_reported", "c18_method_attribute_error_rejects_the_contract",
